@@ -39,6 +39,7 @@ func VerifSetAlgebra(la, lb, lc int) {
 	anyInter := false
 	for k := 0; k <= 2; k++ {
 		inA, inB, inC := vIn(as, k), vIn(bs, k), vIn(cs, k)
+
 		vAssert(A.Contains(k) == inA, "setfromslice/membership")
 		vAssert(u.Contains(k) == vOr(inA, vOr(inB, inC)), "union/membership")
 		vAssert(i3.Contains(k) == vAnd(inA, vAnd(inB, inC)), "intersection3/membership")
@@ -55,6 +56,28 @@ func VerifSetAlgebra(la, lb, lc int) {
 		vAssert(one.Contains(k) == vIn(as, k), "intersection1/identity")
 	}
 	vCover("set-algebra")
+}
+
+// VerifSetAlgebraArgs: the variadic set functions called with a caller-owned slice spread into
+// the parameter - none of them is documented to touch its arguments.
+//verif:case C19 quick VerifSetAlgebraArgs 0..2 0..2 0..1
+//verif:case C19 thorough VerifSetAlgebraArgs 0..2 0..1 2
+func VerifSetAlgebraArgs(la, lb, lc int) {
+	as, bs, cs := vDomSlice(la, "a"), vDomSlice(lb, "b"), vDomSlice(lc, "c")
+	all := []Set[int]{SetFromSlice(as), SetFromSlice(bs), SetFromSlice(cs)}
+	switch vChoose(3) {
+	case 0:
+		Union(all...)
+	case 1:
+		Intersection(all...)
+	case 2:
+		Intersects(all...)
+	}
+	for k := 0; k <= 2; k++ {
+		inA, inB, inC := vIn(as, k), vIn(bs, k), vIn(cs, k)
+		vAssert(vAnd(all[0].Contains(k) == inA, vAnd(all[1].Contains(k) == inB, all[2].Contains(k) == inC)), "setalgebra/argument-slice-left-alone")
+	}
+	vCover("set-algebra-args")
 }
 
 // VerifMapHelpers: Reverse, ReverseSingle, ToIndex, FromKeysAndValues.
